@@ -498,3 +498,24 @@ func goid() int64 {
 	}
 	return id
 }
+
+// ---- gates (T-gate) ----------------------------------------------------
+
+var gates sync.Map // name -> func()
+
+// SetGate installs (or, with nil, removes) the handler run at a named gate.
+func SetGate(name string, f func()) {
+	if f == nil {
+		gates.Delete(name)
+		return
+	}
+	gates.Store(name, f)
+}
+
+// Gate is called at the entry of functions selected by the instrumenter; it
+// runs the harness' handler for that gate (which may block until released).
+func Gate(name string) {
+	if f, ok := gates.Load(name); ok {
+		f.(func())()
+	}
+}
